@@ -1,10 +1,11 @@
-(* Extraction of the executable array model (Arrays.v, BitmapRank.v).  ExtrOcamlBasic only:
+(* Extraction of the executable array model (Arrays.v, BitmapRank.v) and of its protobuf
+   wire model (ArrWire.v over Varint.v/Proto.v).  ExtrOcamlBasic only:
    bool, option, unit, list, prod map to OCaml's; nat, N, Z, positive, byte stay the Coq
    inductives.  No Extract Constant of our own. *)
 From Coq Require Import Extraction ExtrOcamlBasic.
 From Coq Require Import NArith ZArith.
 From Coq.Strings Require Import Byte.
-From Slim Require Import BitmapRank Arrays.
+From Slim Require Import BitmapRank Arrays Varint Proto ArrWire.
 Extraction Language OCaml.
 Extraction "arrx.ml"
   Byte.of_N Byte.to_N N.of_nat N.to_nat
@@ -13,4 +14,9 @@ Extraction "arrx.ml"
   Arrays.base_init Arrays.array_init
   Arrays.new_typed Arrays.new_generic Arrays.new_with_encoder
   Arrays.get_bytes Arrays.base_get Arrays.typed_get Arrays.probe
-  Arrays.to_msg Arrays.of_msg_typed Arrays.of_msg_generic.
+  Arrays.to_msg Arrays.of_msg_typed Arrays.of_msg_generic
+  Varint.blen
+  ArrWire.ser_array32 ArrWire.parse_array32 ArrWire.size_array32 ArrWire.wf_array32
+  ArrWire.ser_bits ArrWire.parse_bits
+  ArrWire.wire_of_array32 ArrWire.array32_of_wire ArrWire.array32_wire_ok
+  ArrWire.marshal_array ArrWire.unmarshal_typed ArrWire.unmarshal_generic.
